@@ -1,3 +1,3 @@
 #!/bin/bash
-# MANIFEST.setup_cmd: build simgen, the runtime overlay and a first simulator binary (offline).
-cd "$(dirname "$0")/.." && bin/build.sh >/dev/null && echo "setup: ok"
+# MANIFEST.setup_cmd: build simgen, the runtime overlay and the two simulator binaries (plain and -race), offline.
+cd "$(dirname "$0")/.." && bin/build.sh >/dev/null && CRSIM_RACE=1 bin/build.sh >/dev/null && echo "setup: ok"
